@@ -193,7 +193,7 @@ def plan(S, prop, mode, tier, avoid):
     for c in range(ncallers):
         r = S.py("caller%d" % c)
         ops = []
-        for _ in range(r.randrange(1, 6)):
+        for _ in range(r.randrange(1, 6) if not (tier == "thorough" and chance(r, 0.12)) else r.randrange(6, 16)):
             k = wpick(r, [("i2s", 4), ("rt", 6), ("jac", 1.5), ("s2i_far", 1), ("abort", 1.2), ("nan", 0.8),
                           ("crpix", 1), ("s2i_given", 1.2)])
             op = {"k": k, "c": c}
